@@ -348,15 +348,29 @@ func (c *Ctx) rulesC04(a *coreAnchors, la *LockAnalysis) {
 		c.check(reach, "C04.wq", "processSubscriptions calls ProcessWhenQueue", psub.Pos(), "queue-tick waiters are resolved by processSubscriptions")
 		// every path from newTransition to the end of the iteration passes
 		// processSubscriptions / ProcessWhenQueue, except through the IsCheck branch
-		isWQ := func(i ssa.Instruction) bool {
+		var isWQd func(i ssa.Instruction, d int) bool
+		var prune func(b *ssa.BasicBlock, succIdx int) bool
+		isWQd = func(i ssa.Instruction, d int) bool {
 			call, ok := i.(ssa.CallInstruction)
 			if !ok {
 				return false
 			}
+			if _, isGo := i.(*ssa.Go); isGo {
+				return false
+			}
 			callee := call.Common().StaticCallee()
-			return callee == psub || (callee != nil && funcKey(callee) == pm+":Subscriptions.ProcessWhenQueue")
+			if callee == psub || (callee != nil && funcKey(callee) == pm+":Subscriptions.ProcessWhenQueue") {
+				return true
+			}
+			// a private helper of processQueue that resolves the waiters on every
+			// one of its own paths (the IsCheck branch excepted)
+			if callee != nil && d < 3 && callee != pq && len(callee.Blocks) > 0 && c.hostedBy(callee, pq) {
+				return fnAlwaysPasses(callee, func(j ssa.Instruction) bool { return isWQd(j, d+1) }, prune)
+			}
+			return false
 		}
-		okAll, via := c.iterationPassesThrough(nt[0], isWQ, func(b *ssa.BasicBlock, succIdx int) bool {
+		isWQ := func(i ssa.Instruction) bool { return isWQd(i, 0) }
+		prune = func(b *ssa.BasicBlock, succIdx int) bool {
 			// prune the IsCheck == true edge
 			ifi, ok := b.Instrs[len(b.Instrs)-1].(*ssa.If)
 			if !ok {
@@ -368,7 +382,8 @@ func (c *Ctx) rulesC04(a *coreAnchors, la *LockAnalysis) {
 				return isTrueEdge
 			}
 			return false
-		})
+		}
+		okAll, via := c.iterationPassesThrough(nt[0], isWQ, prune)
 		c.check(okAll, "C04.wq", "every executed non-check mutation reaches ProcessWhenQueue", nt[0].Pos(),
 			"a path from newTransition to the next iteration skips processSubscriptions"+via+": WhenQueue(tick) of a canceled mutation stays open")
 	}
@@ -414,6 +429,40 @@ func (c *Ctx) iterationPassesThrough(from ssa.Instruction, isTarget func(ssa.Ins
 	}
 	r := dfs(start, instrIndex(from)+1)
 	return !r, bad
+}
+
+// fnAlwaysPasses: every path from f's entry to one of its returns executes an
+// instruction satisfying isTarget; edges for which prune is true are ignored.
+func fnAlwaysPasses(f *ssa.Function, isTarget func(ssa.Instruction) bool, prune func(b *ssa.BasicBlock, succIdx int) bool) bool {
+	if len(f.Blocks) == 0 {
+		return false
+	}
+	seen := map[*ssa.BasicBlock]bool{f.Blocks[0]: true}
+	var dfs func(b *ssa.BasicBlock) bool // true: a return was reached without target
+	dfs = func(b *ssa.BasicBlock) bool {
+		for _, ins := range b.Instrs {
+			if isTarget(ins) {
+				return false
+			}
+			if _, ok := ins.(*ssa.Return); ok {
+				return true
+			}
+		}
+		for si, s := range b.Succs {
+			if prune != nil && prune(b, si) {
+				continue
+			}
+			if seen[s] {
+				continue
+			}
+			seen[s] = true
+			if dfs(s) {
+				return true
+			}
+		}
+		return false
+	}
+	return !dfs(f.Blocks[0])
 }
 
 // ---------------- range / delete lint (C07.iter) ----------------
